@@ -42,6 +42,11 @@ pixman_bool_t pixman_image_unref (pixman_image_t *image) { if (image == &s_mask)
 pixman_image_t *pixman_image_create_solid_fill (const pixman_color_t *c) { (void) c; return 0; }
 pixman_image_t *pixman_image_ref (pixman_image_t *i) { return i; }
 void pixman_image_set_repeat (pixman_image_t *i, pixman_repeat_t r) { (void) i; (void) r; }
+/* reached only with glyphs (none here); present so that the native replay links */
+void _pixman_implementation_lookup_composite (pixman_implementation_t *toplevel, pixman_op_t op, pixman_format_code_t sf, uint32_t sfl,
+                                              pixman_format_code_t mf, uint32_t mfl, pixman_format_code_t df, uint32_t dfl,
+                                              pixman_implementation_t **out_imp, pixman_composite_func_t *out_func)
+{ (void) toplevel; (void) op; (void) sf; (void) sfl; (void) mf; (void) mfl; (void) df; (void) dfl; *out_imp = 0; *out_func = 0; }
 
 /* literal table: does the format carry an alpha channel AND at least one colour channel? */
 static int spec_alpha_and_colour (pixman_format_code_t f, int *known)
